@@ -649,3 +649,16 @@ def _(ctx):
                   model_vars={'xu': xu, 'xd': xd})
     ctx.record('guards', PROVED if len(guards) == 2 else FAILED, 'B', 0, '%d guards of the form |E| < c found on the paths (two zeros of y)' % len(guards))
 from contracts import ieee_finite as _ieee; _ieee.register('C11')  # noqa: IEEE finiteness of the one-argument loop functions
+_ieee.register_selftest('C11')
+
+# "finite and continuous across mass degeneracies" for the MSSM one-/two-loop and the THDM one-loop/fermionic functions rests on the loop functions they call being, on BOTH sides
+# of every internal regime change, within 1e-7 of ONE smooth definition (C01) and on the near-degenerate expansions of the multi-variable functions being the Taylor polynomials
+# of their definitions (C02): those obligations are callee contracts of C11 as well.
+from contracts import c01 as _c01_cb, c02 as _c02_cb
+from gm2v.ob import REGISTRY as _REG_cb
+for _o in list(_REG_cb.get('C01', [])):
+    if _o.oid.endswith('.def') and _o.oid.count('.') == 2:
+        _rr_static('C11', 'C01', _o.oid, _o.oid.replace('C01.', 'C11.callee.', 1))
+for _o in list(_REG_cb.get('C02', [])):
+    if _o.oid in ('C02.expansion.FaFb', 'C02.expansion.I', 'C02.limits.BarrZee', 'C02.limits.zero', 'C02.equal_arguments.FPZ_FSZ'):
+        _rr_static('C11', 'C02', _o.oid, _o.oid.replace('C02.', 'C11.callee.', 1))
